@@ -310,6 +310,43 @@ pub fn gen_history(cfg: &Config, run_seed: u64) -> Vec<Op> {
         }
         prefix = out.len();
     }
+    if cfg.profile == "C16" && cfg.nslots >= 2 && prefix == 0 && cfg.batch_law != 9 && g::NC > 0 && rng.chance(1, 3) {
+        // Twin worlds: two worlds built independently from the same values, the second one in another
+        // order, then rows permuted by moving an entity to another table and back. Such pairs have
+        // equal columns wherever the orders agree and differ only in which entity owns which row
+        // (or not at all, when the draw leaves the order alone): the pairs a clone never produces.
+        out.push(Op::Clone { src: 0, dst: 1 });
+        let nsites = rng.range(1, 2) as usize;
+        let sites: Vec<u16> = (0..nsites).map(|_| rng.below(g::INSERT_SITES.len() as u64) as u16).collect();
+        let m = rng.range(2, 5) as usize;
+        let specs: Vec<(u16, u64)> = (0..m).map(|_| (sites[rng.usize_below(nsites)], rng.next_u64())).collect();
+        let mut order: Vec<usize> = (0..m).collect();
+        if rng.chance(3, 4) {
+            for i in 0..m {
+                let j = i + rng.usize_below(m - i);
+                order.swap(i, j);
+            }
+        }
+        for (site, seed) in &specs {
+            out.push(Op::Insert { slot: 0, site: *site, seed: *seed });
+        }
+        for i in &order {
+            out.push(Op::Insert { slot: 1, site: specs[*i].0, seed: specs[*i].1 });
+        }
+        if rng.chance(3, 4) {
+            // The same detour (add a component, take it away again) for one entity of each world.
+            let c = rng.below(g::NC as u64) as u8;
+            let v = rng.next_u64();
+            for slot in 0..2u8 {
+                let n = rng.range(1, 2);
+                for _ in 0..n {
+                    out.push(Op::Entry { slot, pick: Pick { kind: 0, k: rng.below(m as u64) as u32 }, steps: vec![(true, c, v), (false, c, 0)] });
+                }
+            }
+        }
+        out.push(Op::EqCheck { a: 0, b: 1 });
+        prefix = out.len();
+    }
     while out.len() < prefix + cfg.len as usize {
         let c = rng.weighted(&cfg.weights);
         gen_op(&mut rng, cfg, c, &mut out);
